@@ -56,16 +56,25 @@ Theorem C18_import_position_warning : forall o rec sign p r endp st,
 Proof. exact import_position_warning. Qed.
 Print Assumptions C18_import_position_warning.
 
-(* full statement over the target forms: refuted by `@import url(foo.wxss);` (D17) *)
-Theorem C18_import_any_target_refuted : ~ C18_import_any_target_full.
-Proof. exact import_any_target_refuted. Qed.
-Print Assumptions C18_import_any_target_refuted.
+(* the url forms write the same placeholder (fix eb11eee; before it the rule was dropped, D17) *)
+Theorem C18_import_placeholder_url : forall o sign spos path w pw p ps r endp st,
+  import_try o sign spos (Leaf (TWs w) pw :: Leaf (TUrl path) p :: Leaf TSemi ps :: r) endp st =
+  (Some r, tok_at st (TComment (sign ++ [32] ++ url_encode path)) spos None).
+Proof. exact import_placeholder_url. Qed.
+Print Assumptions C18_import_placeholder_url.
 
-Theorem C18_import_any_target_except_known : forall sign path,
-  existsb (tok_is_comment (sign ++ [32] ++ url_encode path))
-          (o_tokens (w_normal (transform (import_opts sign) (import_sheet (TStr path)) (mkpos 0 21)))) = true.
-Proof. exact import_any_target_except_known. Qed.
-Print Assumptions C18_import_any_target_except_known.
+Theorem C18_import_placeholder_url_fn : forall o sign spos path w pw p ps pf e c r endp st,
+  import_try o sign spos
+    (Leaf (TWs w) pw :: Block (TFunc [117; 114; 108]) pf [Leaf (TStr path) p] e c :: Leaf TSemi ps :: r) endp st =
+  (Some r, tok_at st (TComment (sign ++ [32] ++ url_encode path)) spos None).
+Proof. exact import_placeholder_url_fn. Qed.
+Print Assumptions C18_import_placeholder_url_fn.
+
+(* whole-sheet statement over the target forms (string or url token), every sign and path:
+   the placeholder carrying the path is in the normal output *)
+Theorem C18_import_any_target : C18_import_any_target_full.
+Proof. exact import_any_target. Qed.
+Print Assumptions C18_import_any_target.
 
 (* balanced wrappers for every input: refuted by a malformed condition list
    (`@import 'a' layer(x) 5;` leaves `@layer x{` open) *)
